@@ -86,7 +86,7 @@ static const int WATCHDOG_S = 120;
 
 // UBSan reports (halt_on_error) do not pass through the ASan death callback that hcommon installs: libubsan calls
 // this hook after printing a report, so the offending input is named for UBSan findings as well.
-extern "C" void __ubsan_on_report(void) { dumpCrumb(); }
+// (__ubsan_on_report is provided by hcommon.hpp)
 
 // ---------------------------------------------------------------------------------------------
 // independent move text
